@@ -113,7 +113,31 @@ CLAIMED["C11"] = dict(
        "orders that the scheduler did not realise only lower coverage.",
   ref="DESIGN.md section 5 (C11)", engine="tlc-processmap")
 
+CLAIMED["C13"] = dict(
+  technique="TLA+ model of the survey's noise storage, add_noise cuts, "
+            "select/remove_empty and round trips (SurveyNoise.tla) checked by "
+            "TLC + replay of TLC-simulated behaviours on real emg3d.Survey "
+            "objects with exact (rational) standard deviations",
+  text="TLC checks, for all histories up to 3 operations (1.7 M "
+       "transitions), that only explicit assignments change noise floor / "
+       "relative error / explicit std (action property), that a selection "
+       "is exactly the chosen sub-cube in the chosen order (against an "
+       "independent reference incl. remove_empty), and that data are only "
+       "removed by add_noise.  400 (thorough 8000) TLC-simulated behaviours "
+       "of depth 8 are replayed on real surveys: keys, NaN masks of all data "
+       "sets, storage and values of the noise settings and std^2 (exact "
+       "rationals) are compared with the spec after each step; detached "
+       "originals/copies must not change; |noise| = std; the misfit equals "
+       "1/2 sum |r|^2/std^2 and is invariant under reordering.",
+  note="Trusted: TLC, harness/surveyreplay.py.  One fixed 2x2x2 base survey "
+       "(selections down to 1x1x1), menus of scalar / per-source / "
+       "per-receiver / per-frequency / full-array settings.",
+  ref="DESIGN.md section 5 (C13)", engine="tlc-surveynoise")
+
 ENGINES = [
+ dict(name="tlc-surveynoise", path="spec/SurveyNoise.tla",
+      serves_properties=["C13"],
+      kind_free_text="TLA+ spec + TLC exhaustive + behaviour replay"),
  dict(name="tlc-processmap", path="spec/ProcessMap.tla",
       serves_properties=["C11"],
       kind_free_text="TLA+ spec + TLC exhaustive + TLC trace validation"),
